@@ -31,6 +31,7 @@ class Interp(Ops, ExprMixin, ContainerMixin, StmtMixin, CallMixin, BuiltinMixin)
         self.effects: list[Any] = []
         self.ids: dict[int, int] = {}
         self.spec_uses_contracts = False
+        self.open_findings = None
 
     def reset_path(self) -> None:
         """Per-path interpreter state (global caches hold immutable values only... enum members
